@@ -124,7 +124,9 @@ CHECKS = {
              tech="Lean 4 proof (corollaries of the FIFO refinement; unfolding of the batch write path under an injected fault) + fault-injection correspondence + oracle", ref="§6 C04"),
  "C07": dict(text="Partial. Crash model: `kill` (death between operations) and `crashAt kind n fd op` (death inside op, immediately before its n-th I/O event; hook H1 performs _exit at exactly "
              "those points on the real engine). Theorems: C07_crash_in_append_touches_no_entry (old WAL files untouched, at most new empty files, whether or not the append had rotated / rolled "
-             "over), C07_crash_in_read_touches_no_entry, C07_kill_touches_no_entry. That startup_chore then finds every entry that is on disk is decided by correspondence + oracle: ~470 "
+             "over), C07_crash_in_read_touches_no_entry, C07_kill_touches_no_entry; C07_friendly_appends_survive_crash_in_append (with C06_friendly_appends_are_recovered: after any sequence of successful single-entry appends of one-unit entries within one "
+             "file, a death inside the next append leaves a file whose recovery scan registers exactly the acknowledged entries, topic by topic, in order). Beyond that regime, that startup_chore finds every entry "
+             "that is on disk is decided by correspondence + oracle: ~470 "
              "histories per quick run with the process killed inside appends/batches at every entry write (io_uring: before submission and at the completions), both backends, then reopen, "
              "counts, more operations, full drain; the model's post-crash disk and recovery must agree with the real engine operation by operation.",
              note=BASE_NOTE + "Process-crash model of the statement (completed syscalls persist; tmpfs). Crash points are the instrumented I/O events; torn single writes are not produced. "
